@@ -20,7 +20,7 @@ RUN_TIMEOUT = 120
 SELFTEST_PAIRS = {"quick": 10, "thorough": 30}
 PROBES = ["7z_per_file_layout", "7z_mixed_groups", "7z_encoded_header", "7z_lzma", "7z_copy", "zip_stored", "tar_compressed", "empty_member",
           "directory_member", "hidden_or_unsupported_member", "prepack_fault", "postpack_flip_zip", "postpack_flip_tar", "member_multi_result",
-          "member_fixture_doc", "zero_members"]
+          "member_fixture_doc", "zero_members", "earlier_archive_in_same_process", "same_basename_twice_in_archive"]
 RULE = ("one run = one archive built by a reference writer (zipfile / tarfile / independent 7z writer; every layout) from 0-8 member "
         "documents, read fault-free against the per-member reference model, then re-built once per member k with that member "
         "faulted (pre-pack: truncate / flips / foreign bytes / empty / unsupported / encrypted; post-pack flip inside its data for ZIP, TAR); "
@@ -89,6 +89,12 @@ def gen_case(rng: random.Random, tier: str) -> dict:
             fx = rng.choice(sorted(_fixture_docs))
             m = {"name": f"{d}{stem}_{i}{os.path.splitext(fx)[1]}", "kind": "file", "fixture": fx}
         members.append(m)
+    plain_files = [m for m in members if m["kind"] == "file" and not m.get("fixture")]
+    if plain_files and rng.random() < 0.3:
+        # the same bytes under the same base name in another directory: results must still be labelled with their own path
+        src = rng.choice(plain_files)
+        dup = dict(src, name=rng.choice(["dup/", "other dir/", "z/y/"]) + os.path.basename(src["name"]))
+        members.insert(rng.randrange(len(members) + 1), dup)
     if fmt == "tar" and not any(m["kind"] == "file" for m in members):
         # a plain TAR without a single header is 10 KiB of zeros: it carries no signature to be recognised by (not generated)
         members.append({"name": "only.txt", "kind": "file", "doc": "txt", "token": "TOKonly", "pad": 0})
@@ -109,7 +115,16 @@ def gen_case(rng: random.Random, tier: str) -> dict:
                 i += k
             o["groups"] = groups
         spec["7z"] = o
-    return {"spec": spec, "faults": "enumerate", "fault_seed": rng.randrange(1 << 30), "path": "A" + archgen.ext_of(fmt)}
+    case = {"spec": spec, "faults": "enumerate", "fault_seed": rng.randrange(1 << 30), "path": "A" + archgen.ext_of(fmt)}
+    plain_files = [m for m in members if m["kind"] == "file" and not m.get("fixture")]
+    if plain_files and rng.random() < 0.3:
+        # history: another archive read earlier in the same process holds a member with the same base name and bytes
+        pf = rng.choice(["zip", "tar", "tar.gz", "7z"])
+        src = rng.choice(plain_files)
+        pm = [dict(src, name=rng.choice(["", "earlier/"]) + os.path.basename(src["name"])),
+              {"name": "p_other.txt", "kind": "file", "doc": "txt", "token": "TOKprelude", "pad": 0}]
+        case["prelude"] = {"spec": {"fmt": pf, "members": pm}, "path": "P" + archgen.ext_of(pf)}
+    return case
 
 
 def _mbytes(m: dict) -> bytes:
@@ -257,6 +272,17 @@ def run_case(case: dict) -> dict:
     ncls = "0" if not files else "1" if len(files) == 1 else "2-3" if len(files) <= 3 else "4+"
     evals = 0
 
+    if case.get("prelude"):
+        probe("earlier_archive_in_same_process")
+        pa = archgen.build(case["prelude"]["spec"])
+        pg, pe = _read(pa, case["prelude"]["path"])
+        pexp = [x for m in case["prelude"]["spec"]["members"] for x in (_ref_member(m["name"], archgen.member_bytes(m), case["prelude"]["path"])
+                                                                        if _visible_supported(m["name"], len(archgen.member_bytes(m)), limit) else [])]
+        evals += 1
+        if pe is None and pg != pexp:
+            viol.append({"class": "faultfree_members_wrong", "sig": f"prelude|{case['prelude']['spec']['fmt']}", "detail": f"prelude archive: got {pg[:4]} expected {pexp[:4]}"})
+    if len({os.path.basename(m["name"]) for m in files}) < len(files):
+        probe("same_basename_twice_in_archive")
     # ---- fault-free
     arc = archgen.build(_spec_with_raw(spec))
     got, exc = _read(arc, apath)
@@ -380,6 +406,10 @@ def _rec(viol, log, evals, faults, probes, nontriv):
 
 # ------------------------------------------------------------------------------------------------ shrinking
 def shrink(case):
+    if case.get("prelude"):
+        c = copy.deepcopy(case)
+        del c["prelude"]
+        yield c
     spec = case["spec"]
     ms = spec["members"]
     files_idx = [i for i, m in enumerate(ms) if m["kind"] == "file"]
